@@ -509,12 +509,18 @@ pub fn exec_op(ctx: &mut WorkerCtx, op: &Op) {
             None => {}
         },
         Op::LcCollectOpen => {
-            let top = ctx.frames.pop();
+            let mut open = vec![];
+            while let Some(RFrame::Local(_)) = ctx.frames.last() {
+                open.push(ctx.frames.pop());
+            }
             if let Some(RFrame::Collector(Some(c), set)) = ctx.frames.pop() {
                 let ls = c.collect();
                 lock(&SETS).as_mut().unwrap().insert(set, ls);
             }
-            drop(top);
+            // innermost first
+            for f in open {
+                drop(f);
+            }
         }
         Op::PushSet { set, parents } => {
             let ls = lock(&SETS).as_ref().unwrap().get(set).cloned();
